@@ -277,7 +277,7 @@ pub fn run(cfg: &Cfg) -> Report {
     let seed = cfg.seed;
     let mut total = Report::new();
     // class 0: 3 sweeps x 16 slices of 4096 values = every x, every y, every scancode (both tiers; thorough repeats with other seeds)
-    let plan: Vec<(u64, u64)> = vec![(0, if cfg.quick() { 48 } else { 48 * 8 }), (1, cfg.n(3_000, 60_000))];
+    let plan: Vec<(u64, u64)> = vec![(0, if cfg.quick() { 48 } else { 48 * 48 }), (1, cfg.n(3_000, 600_000))];
     for (class, n) in plan {
         if !cfg.wants(class) {
             continue;
